@@ -17,6 +17,14 @@
 (* interest list with level/edge/oneshot state, the timer heap with        *)
 (* counters and the list of counters expired in the current poll.          *)
 (*                                                                         *)
+(* Source kinds: ping (eventfd counter + close marker), comp (composite of  *)
+(* Generic fds with level / edge / oneshot children, lifecycle hooks and    *)
+(* synthetic events), timer, chan (mpsc queue + senders + ping, bounded     *)
+(* batch with self re-ping), exec (run queue of runnables, `notified` flag, *)
+(* futures queued / parked / done / dropped, batch limit, futures dropped   *)
+(* with the executor), stream (StreamSource: initial self ping, poll_next   *)
+(* until Pending, None then Remove).                                        *)
+(*                                                                         *)
 (* Every action emits the observable events the conformance harness logs   *)
 (* for the same step of the real crate, and feeds them to the contract     *)
 (* monitor of LoopContract.tla, so the invariants NoViolation(Cxx) are the *)
